@@ -168,8 +168,9 @@ def walcrashOpWith (tolerateDup : Bool) : Op := fun args =>
           (s.applied.any (fun c => (untag b (c.year, c.index)).isSome && live.any (· == c))))
         let power := jS.contains 'u' || jS.contains 'g'
         let spec' := if tolerateDup && dup && !power then spec ++ "||" ++ mk bsDone ++ "||" ++ mk bsNext else spec
+        -- (`g`, garbage in the WAL tail, is no hypothesis any more: replay stops at / skips damaged
+        --  records since the C06 repairs)
         let hy := (if jS.contains 'u' then ["unsynced_catalog_data"] else []) ++
-                  (if jS.contains 'g' then ["wal_tail_garbage"] else []) ++
                   (if dup && !power then ["var_replay_duplicates"] else [])
         s!"M:*\tS:{spec'}\tH:{",".intercalate hy}"
       | some j =>
